@@ -140,7 +140,21 @@ def check_C20(report, tier, seed):
     S.suite_aws(report, tier, seed, "C20")
 
 
-CHECKS = {"C20": check_C20, "C08": check_C08, "C12": check_C12, "C19": check_C19, "C01": check_C01, "C02": check_C02, "C03": check_C03, "C04": check_C04, "C05": check_C05, "C06": check_C06,
+def check_C13(report, tier, seed):
+    import suites_drivers as S
+    report.rule = ("(1) websocket sessions: 1-8 server frames (binary/text/ping/close; payloads 0..70000 bytes incl. 125/126/127, 4095/4096/4097, 65535/65536), read "
+                   "buffers 1..4096 bytes, frames arriving byte-wise, split, several at once; (2) the real tokio and threaded clients over a scripted transport: "
+                   "write accepts of 1..5000 bytes, stalls released while further operations are submitted, read fragments of 1..100 bytes with would-block, "
+                   "publish/subscribe/unsubscribe mixes before and after start; (3) stop/close races: submissions before, during and after close, from several threads; "
+                   "distinct by request line")
+    report.assumptions.append("thread/task interleavings are sampled by running the real drivers, not enumerated; the model covers the write-loop accounting, the websocket read adapter and the result slot")
+    gv.theorem_obligations(report, "GV/Props/C13.lean", "GV.Props.C13", audit=True)
+    S.suite_ws(report, tier, seed, "C13")
+    S.suite_fidelity(report, tier, seed, "C13")
+    S.suite_results(report, tier, seed, "C13")
+
+
+CHECKS = {"C13": check_C13, "C20": check_C20, "C08": check_C08, "C12": check_C12, "C19": check_C19, "C01": check_C01, "C02": check_C02, "C03": check_C03, "C04": check_C04, "C05": check_C05, "C06": check_C06,
           "C07": check_C07, "C09": check_C09, "C10": check_C10, "C11": check_C11, "C14": check_C14, "C15": check_C15,
           "C16": check_C16, "C17": check_C17, "C18": check_C18}
 
